@@ -482,6 +482,7 @@ def run_canary(text, gen_path, extra, timeout):
     diags, raw = parse_diags(err)
     lines = ctext.split("\n")
     failed_ids = set()
+    rlimit_fns = set()
     other_errors = []
     for d in diags:
         if d.get("level") != "error":
@@ -497,10 +498,17 @@ def run_canary(text, gen_path, extra, timeout):
                     if m and "assertion failed" in msg:
                         failed_ids.add(int(m.group(1)))
                         hit = True
+                    if "Resource limit" in msg:
+                        # the solver gave up on this function: its canaries were NOT proved (inconclusive, not vacuous)
+                        m2 = re.search(r"\bfn\s+([A-Za-z_][A-Za-z0-9_]*)", lines[ln - 1])
+                        if m2:
+                            rlimit_fns.add(m2.group(1))
+                            hit = True
         if not hit and (d.get("code") or classify(msg) == "?"):
             other_errors.append(msg)
     if other_errors and not failed_ids:
         return {"error": "canary unit does not compile: %s" % "; ".join(other_errors[:3]), "path": cpath}
-    vacuous = [dict(meta[c], id=c) for c in sorted(meta) if c not in failed_ids]
-    return {"total": len(meta), "failed_as_expected": len(failed_ids & set(meta)), "vacuous": vacuous,
+    vacuous = [dict(meta[c], id=c) for c in sorted(meta) if c not in failed_ids and str(meta[c].get("fn", "")).split("::")[-1] not in rlimit_fns]
+    inconclusive = [dict(meta[c], id=c) for c in sorted(meta) if c not in failed_ids and str(meta[c].get("fn", "")).split("::")[-1] in rlimit_fns]
+    return {"total": len(meta), "failed_as_expected": len(failed_ids & set(meta)), "vacuous": vacuous, "inconclusive_rlimit": inconclusive,
             "errors": other_errors[:5], "wall_s": round(wall, 2), "path": cpath}
